@@ -22,6 +22,7 @@ from ...language import (
     VariableNode,
     print_ast,
 )
+from ...pyutils import RefMap
 from ...type import (
     GraphQLCompositeType,
     GraphQLField,
@@ -73,7 +74,12 @@ class OverlappingFieldsCanBeMergedRule(ValidationRule):
         # A cache for the "field map" and list of fragment spreads found in any given
         # selection set. Selection sets may be asked for this information multiple
         # times, so this improves the performance of this validator.
-        self.cached_fields_and_fragment_spreads: dict = {}
+        # The cache is keyed by the identity of the selection set nodes, since nodes
+        # compare by value and structurally equal selection sets (e.g. in documents
+        # parsed without locations) can belong to different parent types.
+        self.cached_fields_and_fragment_spreads: FieldsAndFragmentSpreadsCache = (
+            RefMap()
+        )
 
     def enter_selection_set(self, selection_set: SelectionSetNode, *_args: Any) -> None:
         conflicts = find_conflicts_within_selection_set(
@@ -107,6 +113,10 @@ NodeAndDef: TypeAlias = tuple[GraphQLCompositeType, FieldNode, GraphQLField | No
 NodeAndDefCollection: TypeAlias = dict[str, list[NodeAndDef]]
 # A mapping of fragment variable names to their value nodes.
 VarMap: TypeAlias = "dict[str, ValueNode] | None"
+
+FieldsAndFragmentSpreadsCache: TypeAlias = (
+    "RefMap[SelectionSetNode, tuple[NodeAndDefCollection, list[FragmentSpread]]]"
+)
 
 
 class FragmentSpread(NamedTuple):
@@ -172,7 +182,7 @@ class FragmentSpread(NamedTuple):
 
 def find_conflicts_within_selection_set(
     context: ValidationContext,
-    cached_fields_and_fragment_spreads: dict,
+    cached_fields_and_fragment_spreads: FieldsAndFragmentSpreadsCache,
     compared_fields_and_fragment_pairs: OrderedPairSet,
     compared_fragment_pairs: PairSet,
     parent_type: GraphQLNamedType | None,
@@ -238,7 +248,7 @@ def find_conflicts_within_selection_set(
 def collect_conflicts_between_fields_and_fragment(
     context: ValidationContext,
     conflicts: list[Conflict],
-    cached_fields_and_fragment_spreads: dict,
+    cached_fields_and_fragment_spreads: FieldsAndFragmentSpreadsCache,
     compared_fields_and_fragment_pairs: OrderedPairSet,
     compared_fragment_pairs: PairSet,
     are_mutually_exclusive: bool,
@@ -312,7 +322,7 @@ def collect_conflicts_between_fields_and_fragment(
 def collect_conflicts_between_fragments(
     context: ValidationContext,
     conflicts: list[Conflict],
-    cached_fields_and_fragment_spreads: dict,
+    cached_fields_and_fragment_spreads: FieldsAndFragmentSpreadsCache,
     compared_fields_and_fragment_pairs: OrderedPairSet,
     compared_fragment_pairs: PairSet,
     are_mutually_exclusive: bool,
@@ -424,7 +434,7 @@ def collect_conflicts_between_fragments(
 
 def find_conflicts_between_sub_selection_sets(
     context: ValidationContext,
-    cached_fields_and_fragment_spreads: dict,
+    cached_fields_and_fragment_spreads: FieldsAndFragmentSpreadsCache,
     compared_fields_and_fragment_pairs: OrderedPairSet,
     compared_fragment_pairs: PairSet,
     are_mutually_exclusive: bool,
@@ -524,7 +534,7 @@ def find_conflicts_between_sub_selection_sets(
 def collect_conflicts_within(
     context: ValidationContext,
     conflicts: list[Conflict],
-    cached_fields_and_fragment_spreads: dict,
+    cached_fields_and_fragment_spreads: FieldsAndFragmentSpreadsCache,
     compared_fields_and_fragment_pairs: OrderedPairSet,
     compared_fragment_pairs: PairSet,
     field_map: NodeAndDefCollection,
@@ -561,7 +571,7 @@ def collect_conflicts_within(
 def collect_conflicts_between(
     context: ValidationContext,
     conflicts: list[Conflict],
-    cached_fields_and_fragment_spreads: dict,
+    cached_fields_and_fragment_spreads: FieldsAndFragmentSpreadsCache,
     compared_fields_and_fragment_pairs: OrderedPairSet,
     compared_fragment_pairs: PairSet,
     parent_fields_are_mutually_exclusive: bool,
@@ -605,7 +615,7 @@ def collect_conflicts_between(
 
 def find_conflict(
     context: ValidationContext,
-    cached_fields_and_fragment_spreads: dict,
+    cached_fields_and_fragment_spreads: FieldsAndFragmentSpreadsCache,
     compared_fields_and_fragment_pairs: OrderedPairSet,
     compared_fragment_pairs: PairSet,
     parent_fields_are_mutually_exclusive: bool,
@@ -816,7 +826,7 @@ def do_types_conflict(type1: GraphQLOutputType, type2: GraphQLOutputType) -> boo
 
 def get_fields_and_fragment_spreads(
     context: ValidationContext,
-    cached_fields_and_fragment_spreads: dict,
+    cached_fields_and_fragment_spreads: FieldsAndFragmentSpreadsCache,
     parent_type: GraphQLNamedType | None,
     selection_set: SelectionSetNode,
     var_map: VarMap,
@@ -846,7 +856,7 @@ def get_fields_and_fragment_spreads(
 
 def get_referenced_fields_and_fragment_spreads(
     context: ValidationContext,
-    cached_fields_and_fragment_spreads: dict,
+    cached_fields_and_fragment_spreads: FieldsAndFragmentSpreadsCache,
     fragment: FragmentDefinitionNode,
     var_map: VarMap,
 ) -> tuple[NodeAndDefCollection, list[FragmentSpread]]:
